@@ -3,7 +3,7 @@ Oracle: panic hook + catch_unwind inside the worker, process exit status for abo
 *logical* cost (allocation count / bytes, deterministic) for the time bound."""
 import math, json
 from .. import core, corpus
-from ..gen import grel, gtext, gfeat
+from ..gen import grel, gtext, gfeat, gnest
 
 ENTRIES_SRC = ["tokens", "pl", "fmt", "rq", "compile"]
 MAX_N = 4096
@@ -317,6 +317,8 @@ def run(tier, seed):
     for prof in ("core", "window", "project", "sort"):
         items += [(grel.random_program_text(rng, prof), "grel") for _ in range(n_rel // 4)]
     base = [s for s, _ in items]
+    # every expression kind in every syntactic slot (most do not resolve: the error paths of every stage are driven)
+    items += [(src, "gnest") for _, src in (gnest.two_level() if tier == "quick" else gnest.programs(3))]
     n_mut = 4000 if tier == "quick" else 150000
     for _ in range(n_mut):
         items.append((gtext.mutate(rng, rng.choice(base), rng.choice([1, 1, 2, 3])), "mutant"))
